@@ -115,98 +115,6 @@ func vxV3Replica(c *vxV3Client) *Replica {
 	return r
 }
 
-// VxC19Apply: applyWALSegmentsV3 on a layout with at most one segment removed.
-func VxC19Apply() {
-	nidx := vx.Param("IDX", 2)
-	s := vx.Choose("snapidx", 0, 1)
-	c := &vxV3Client{body: map[[2]int64][]byte{}}
-	all := vxV3Layout(c, "g1", s, nidx, false, time.Time{})
-	// remove one segment (or none)
-	rm := vx.Choose("remove", 0, len(all))
-	var segs []WALSegmentInfoV3
-	for i, seg := range all {
-		if i+1 != rm {
-			segs = append(segs, seg)
-		}
-	}
-	dir := vx.TempDir()
-	dbPath := dir + "/out.db.tmp"
-	vx.FSWriteFile(dbPath, []byte{0x53})
-	vxCkptLog = nil
-	r := vxV3Replica(c)
-	err := r.applyWALSegmentsV3(context.Background(), c, "g1", s, segs, dbPath)
-	ok, wals := vxV3Expect(c, segs, s)
-	if !ok {
-		vx.Assert("gap-or-missing-segment-is-an-error", err != nil)
-		return
-	}
-	vx.Assert("contiguous-run-applies", err == nil)
-	if err != nil {
-		return
-	}
-	same := len(vxCkptLog) == len(wals)
-	for i := 0; same && i < len(wals); i++ {
-		same = bytes.Equal(vxCkptLog[i], wals[i])
-	}
-	vx.Assert("each-wal-reassembled-exactly", same)
-	vx.Assert("no-wal-left-behind", !vx.FSExists(dbPath+"-wal"))
-	vx.Observe("checkpoints", uint64(len(vxCkptLog)))
-}
-
-// VxC19Select: snapshot choice and segment filtering by time.
-func VxC19Select() {
-	n := vx.Param("SNAPS", 3)
-	now := time.Now()
-	var snaps []SnapshotInfoV3
-	ages := make([]uint64, n)
-	for i := 0; i < n; i++ {
-		ages[i] = vx.Range("snapage", 0, 6)
-		snaps = append(snaps, SnapshotInfoV3{Generation: "g1", Index: i, CreatedAt: vx.TimeAgo(now, ages[i])})
-	}
-	tAge := vx.Range("tage", 0, 6)
-	useT := vx.Fault("useT")
-	var T time.Time
-	if useT {
-		// T = now - tAge (whole second): never equal to a snapshot time (those end in .5)
-		T = now.Add(-time.Duration(vx.Concrete(tAge)) * time.Second)
-	}
-	sortSnapshotsV3ByCreatedAt(snaps)
-	for i := 1; i < len(snaps); i++ {
-		vx.Assert("sorted-by-time", !snaps[i-1].CreatedAt.After(snaps[i].CreatedAt))
-	}
-	best := findBestSnapshotV3(snaps, T)
-	// reference: the newest snapshot not after T (or the newest of all)
-	eligible := func(i int) bool { return vx.Or(!useT, vx.Not(snaps[i].CreatedAt.After(T))) }
-	anyEl := false
-	for i := range snaps {
-		anyEl = vx.Or(anyEl, eligible(i))
-	}
-	if best == nil {
-		vx.Assert("nil-only-if-none-eligible", vx.Not(anyEl))
-		return
-	}
-	isEl := !useT || !best.CreatedAt.After(T)
-	vx.Assert("chosen-is-eligible", isEl)
-	for i := range snaps {
-		vx.Assert("chosen-is-newest-eligible", vx.Implies(eligible(i), !snaps[i].CreatedAt.After(best.CreatedAt)))
-	}
-	// filter: every kept segment is at or after the snapshot index and not after T; none dropped otherwise
-	var segs []WALSegmentInfoV3
-	for i := 0; i < 3; i++ {
-		segs = append(segs, WALSegmentInfoV3{Generation: "g1", Index: i, CreatedAt: vx.TimeAgo(now, vx.Range("segage", 0, 6))})
-	}
-	kept := filterWALSegmentsV3(segs, best.Index, T)
-	k := 0
-	for _, seg := range segs {
-		want := seg.Index >= best.Index && (!useT || !seg.CreatedAt.After(T))
-		got := k < len(kept) && kept[k].Index == seg.Index
-		vx.Assert("filter-keeps-exactly-eligible", want == got)
-		if got {
-			k++
-		}
-	}
-}
-
 // VxC19Restore: the whole RestoreV3 over the file-system model: error and no
 // output on a gap, output only by rename of the finished temp file.
 func VxC19Restore() {
@@ -246,6 +154,68 @@ func VxC19Restore() {
 	}
 	vx.Assert("contiguous-run-restores", err == nil && vx.FSExists(out))
 	vx.Assert("all-wals-applied", len(vxCkptLog) == len(wals))
+}
+
+// VxC19Generations: the whole RestoreV3 over several generations listed in the
+// order a backend lists them (by name, which says nothing about age), each with
+// one snapshot and one WAL segment of symbolic ages, with or without a requested
+// time: the database restored is the newest snapshot not newer than the requested
+// time, from whatever generation, followed by that generation's WAL when it is
+// not newer than the requested time either; no eligible snapshot is an error.
+func VxC19Generations() {
+	g := vx.Param("GENS", 3)
+	now := time.Now()
+	c := &vxV3Client{body: map[[2]int64][]byte{}, snaps: map[string][]SnapshotInfoV3{}, segs: map[string][]WALSegmentInfoV3{}}
+	names := []string{"aaaa", "bbbb", "cccc"}[:g]
+	c.gens = names
+	snapAge := make([]uint64, g)
+	segAge := make([]uint64, g)
+	for i, name := range names {
+		snapAge[i] = vx.Range("snapage", 0, 6)
+		segAge[i] = vx.Range("segage", 0, 6)
+		vx.Assume(segAge[i] <= snapAge[i]) // the WAL segment was written after its snapshot
+		for j := 0; j < i; j++ {
+			vx.Assume(snapAge[i] != snapAge[j]) // generations do not overlap in time
+		}
+		idx := 10 + i
+		c.snaps[name] = []SnapshotInfoV3{{Generation: name, Index: idx, CreatedAt: vx.TimeAgo(now, snapAge[i])}}
+		c.segs[name] = []WALSegmentInfoV3{{Generation: name, Index: idx, Offset: 0, Size: 1, CreatedAt: vx.TimeAgo(now, segAge[i])}}
+		c.body[[2]int64{int64(idx), 0}] = []byte{byte(0xa0 + i)}
+	}
+	useT := vx.Fault("useT")
+	tAge := vx.Range("tage", 0, 6)
+	var T time.Time
+	if useT {
+		T = now.Add(-time.Duration(vx.Concrete(tAge)) * time.Second)
+	}
+	dir := vx.TempDir()
+	out := dir + "/restore/out.db"
+	vxCkptLog = nil
+	r := vxV3Replica(c)
+	err := r.RestoreV3(context.Background(), RestoreOptions{OutputPath: out, IntegrityCheck: IntegrityCheckNone, Timestamp: T})
+	// reference: eligible = created at or before T (instants end in .5 s, T is whole)
+	best := -1
+	for i := 0; i < g; i++ {
+		el := !useT || vx.Concrete(vx.IteU64(snapAge[i] >= tAge, 1, 0)) == 1
+		if el && (best < 0 || vx.Concrete(vx.IteU64(snapAge[i] < snapAge[best], 1, 0)) == 1) {
+			best = i
+		}
+	}
+	if best < 0 {
+		vx.Assert("no-eligible-snapshot-is-an-error", err != nil && !vx.FSExists(out))
+		return
+	}
+	vx.Assert("restore-succeeds", err == nil && vx.FSExists(out))
+	if err != nil {
+		return
+	}
+	vx.Assert("restored-from-the-newest-eligible-snapshot", bytes.Equal(vx.FSReadFile(out), []byte{0x53, byte(10 + best)}))
+	segEl := !useT || vx.Concrete(vx.IteU64(segAge[best] >= tAge, 1, 0)) == 1
+	if segEl {
+		vx.Assert("that-generations-wal-applied", len(vxCkptLog) == 1 && bytes.Equal(vxCkptLog[0], []byte{byte(0xa0 + best)}))
+	} else {
+		vx.Assert("no-wal-newer-than-requested-time-applied", len(vxCkptLog) == 0)
+	}
 }
 
 // VxC19Arbitrate: with both formats present, the one holding the more recent
